@@ -80,8 +80,19 @@ fn step(inst: &mut v1::Instance, op: &str, a: &Value) -> Value {
         }
         "slack_add" => {
             match inst.add_integer_slack_to_inequality(a["cid"].as_u64().unwrap(), a["ub"].as_u64().unwrap()) {
-                Ok(b) => json!({"tag":"ok","b":optv(&b, |x| from_f64(*x)),
-                                "b_approx":optv(&b, |x| approx_rational(*x, 1_000_000))}),
+                Ok(b) => {
+                    // is the reported b the coefficient of the newest variable in the constraint's function? (f64 ==)
+                    let cid = a["cid"].as_u64().unwrap();
+                    let sid = inst.decision_variables.last().map(|d| d.id);
+                    let coef = inst.constraints.iter().find(|c| c.id == cid).and_then(|c| {
+                        let f = c.function();
+                        let mut it = f.into_iter();
+                        it.find(|(ids, _)| ids.len() == 1 && Some(ids[0]) == sid).map(|(_, c)| c)
+                    });
+                    json!({"tag":"ok","b":optv(&b, |x| from_f64(*x)),
+                           "b_approx":optv(&b, |x| approx_rational(*x, 1_000_000)),
+                           "b_is_slack_coef": b.is_some() && Some(coef.unwrap_or(0.0)) == b})
+                }
                 Err(e) => {
                     if e.downcast_ref::<ommx::InfeasibleDetected>().is_some() {
                         json!({"tag":"infeasible","msg":format!("{e:#}")})
@@ -142,7 +153,17 @@ fn feas_table(inst: &v1::Instance, cid: u64, points: &Value, pre_var_ids: &BTree
     Value::Array(rows)
 }
 
-pub fn apply_one(ev: &Value) -> Vec<Value> {
+pub fn apply_one(ev0: &Value) -> Vec<Value> {
+    // echo the input messages as the harness understood them (protobuf maps have no order: both the echoed input
+    // and every recorded output list map entries sorted by key, so raw pre/post messages are comparable)
+    let mut ev1 = ev0.clone();
+    if ev1["in"].get("inst").is_some() {
+        ev1["in"]["inst"] = instance_to(&instance_from(&ev0["in"]["inst"]));
+    }
+    if ev1["in"].get("pinst").is_some() {
+        ev1["in"]["pinst"] = pinstance_to(&pinstance_from(&ev0["in"]["pinst"]));
+    }
+    let ev = &ev1;
     let name = ev["ev"].as_str().unwrap();
     let inp = &ev["in"];
     let mk = |out: Value| -> Value {
